@@ -487,6 +487,17 @@ def _sig_extra(viol, ctx):
     """For C19/still-running: where was the thread that waits in the nested run_timeout when the enclosing limiter's
     interrupt was sent to it - blocked in the timed wait ('blocked:event'), or executing run_timeout's own set-up /
     clean-up code ('runnable'), ..."""
+    if viol[0] == 'C19/no-outcome' and 'deadlock:' in viol[1]:
+        # shape of the deadlock: a thread that was itself the target of an (enclosing) interrupt joins a pool thread that
+        # sits idle in the pool's task queue - the pool was never terminated, so that thread never exits
+        st_ = dict(x.split('=', 1) for x in viol[1].split('deadlock:', 1)[1].split(',') if '=' in x)
+        targeted = {t[2] for t in ctx.async_targets}
+        for name, state in st_.items():
+            if state.startswith('blocked/join:'):
+                w = state.split(':', 1)[1]
+                if name in targeted and st_.get(w) == 'blocked/queue':
+                    return ['interrupted-waiter-joins-idle-pool-thread']
+        return None
     if viol[0] != 'C19/still-running':
         return None
     states = set()
